@@ -13,10 +13,6 @@ import (
 // id (bare Mux worlds); in API worlds the stream carries the SOCKS5 exchange first and the audit is
 // limited to "every byte decodes".
 
-type c01pDirSegs struct {
-	segs []*wire.Segment
-}
-
 func c01pWire(c *core.Ctx, k c01pCase, res []c01pResult, view *sim.World) {
 	if view == nil {
 		return
@@ -46,7 +42,9 @@ func c01pWire(c *core.Ctx, k c01pCase, res []c01pResult, view *sim.World) {
 			}
 			c.Hist("program_padding2", padBucket(len(s.Pad2)))
 		}
-		c01pLeanDecode(c, k, view, ds)
+	}
+	if !strings.HasSuffix(k.Name, "-pad0") { // every mode has a pad255 twin; halves the volume pushed through the Lean receiver
+		c01pLeanDecodeAll(c, k, view, streams)
 	}
 	if k.API {
 		return
@@ -69,7 +67,14 @@ func c01pWire(c *core.Ctx, k c01pCase, res []c01pResult, view *sim.World) {
 			if c2s && len(writes) == 0 {
 				writes = []int{0}
 			}
-			c01pCheckDir(c, k, i, c2s, dirNo, segs, writes, written, closed, readerLeft)
+			data := c01pCheckDir(c, k, i, c2s, dirNo, segs, writes, written, closed, readerLeft)
+			if data != nil {
+				rd, nm := r.S.Read, "client→server"
+				if !c2s {
+					rd, nm = r.C.Read, "server→client"
+				}
+				c01pModelReads(c, k, i, nm, data, rd)
+			}
 		}
 	}
 }
@@ -89,7 +94,7 @@ func padBucket(n int) string {
 
 // c01pCheckDir: the segments of one session travelling in one direction against the list of Write
 // calls of that side.
-func c01pCheckDir(c *core.Ctx, k c01pCase, sess int, c2s bool, dirNo int, segs []*wire.Segment, writes []int, written int, closed bool, readerLeft bool) {
+func c01pCheckDir(c *core.Ctx, k c01pCase, sess int, c2s bool, dirNo int, segs []*wire.Segment, writes []int, written int, closed bool, readerLeft bool) []*wire.Segment {
 	name := "server→client"
 	if c2s {
 		name = "client→server"
@@ -118,10 +123,10 @@ func c01pCheckDir(c *core.Ctx, k c01pCase, sess int, c2s bool, dirNo int, segs [
 	sim.FillStream(exp, k.Seed, sess, dirNo, 0)
 	if string(exp) != string(payload) || len(payload) > total {
 		c.Violate("C01/program/wire/content-differs", fmt.Sprintf("%s session %d %s: the bytes on the wire are not a prefix of what was written", k.Name, sess, name), k)
-		return
+		return nil
 	}
 	if readerLeft {
-		return
+		return data
 	}
 	if len(payload) < total {
 		what := "no close"
@@ -129,9 +134,8 @@ func c01pCheckDir(c *core.Ctx, k c01pCase, sess int, c2s bool, dirNo int, segs [
 			what = "closed after its last Write"
 		}
 		c.Violate("C01/program/wire/bytes-never-sent", fmt.Sprintf("%s session %d %s: %d of %d written bytes are on the wire (%s; close request on the wire: %v)", k.Name, sess, name, len(payload), total, what, closeAt >= 0), k)
-		return
+		return nil
 	}
 	c01pModelSegs(c, k, sess, c2s, name, data, writes, closeAt >= 0)
+	return data
 }
-
-func c01pJoin(xs []string) string { return strings.Join(xs, " ") }
